@@ -111,6 +111,8 @@ def base_config(spec):
         }
         if spec.get("want_authn_requests_signed"):
             svc["want_authn_requests_signed"] = True
+        if spec.get("only_valid_cert"):
+            svc["want_authn_requests_only_with_valid_cert"] = True
         if spec.get("enc_in_config"):
             svc["encrypt_assertion"] = True          # encryption switched on by configuration, not per call
         if spec.get("enc_hook_allow") is not None:
